@@ -165,7 +165,7 @@ Inductive sop :=
   | SEraseKey (a : nat) (v : Z) | SErasePos (a : nat) (h : nat) | SEraseRange (a : nat) (h1 h2 : nat)
   | SClear (a : nat) | SSwap (a b : nat) | SCopyAssign (a b : nat) | SMoveAssign (a b : nat)
   | SFind (a : nat) (v : Z) | SCount (a : nat) (v : Z) | SContains (a : nat) (v : Z) | SLb (a : nat) (v : Z) | SUb (a : nat) (v : Z)
-  | SEqr (a : nat) (v : Z) | SMerge (a b : nat) | SCmp (a b : nat) | SWalk (a : nat) | SRevWalk (a : nat) | SEraseLoop (a : nat) (k : Z).
+  | SEqr (a : nat) (v : Z) | SMerge (a b : nat) | SCmp (a b : nat) | SWalk (a : nat) | SRevWalk (a : nat) | SEraseLoop (a : nat) (k : Z) | SRelocate (a b : nat).
 Inductive sres :=
   | SROk | SRIns (i : nat) (b : bool) | SRIdx (i : nat) | SRNode (n : option Z) | SRNIns (i : nat) (b : bool) (n : option Z)
   | SRNIdx (i : nat) (n : option Z) | SRN (n : nat) | SRB (b : bool) | SRRng (i j : nat) | SRCmp (bits : list bool)
@@ -286,6 +286,8 @@ Definition sstep (p : spool) (o : sop) : spool * sres :=
   | SCmp a b => on a (fun s => match sget p b with Some sb => (p, SRCmp (cmp_bits1 s sb)) | None => skip end)
   | SWalk a => on a (fun s => (p, SRWalk (elems s)))
   | SRevWalk a => on a (fun s => (p, SRWalk (rev (elems s))))
+  | SRelocate a b => if Nat.eqb a b then skip else
+      on a (fun s => match sget p b with Some _ => skip | None => (sput (sput p b (Some s)) a None, SROk) end)
   | SEraseLoop a k => on a (fun s => if (k =? 0)%Z then skip else
                                      let '(s', it, er) := erase_loop (2 * size1 s + 2) s 0 0 0 k in (sput p a (Some s'), SRLoop it er))
   end.
